@@ -56,12 +56,12 @@ def overlapB (s : SchemaD) (P1 P2 : String) : Bool :=
   P1 == P2 || isPossibleType s P2 P1 || isPossibleType s P1 P2 ||
     (possibleTypes s P1).any fun rt => isPossibleType s P1 rt && isPossibleType s P2 rt
 
-def pairOk (s : SchemaD) (rec : TSels → Bool) (x y : String × FNode) : Bool :=
+def pairOk (s : SchemaD) (rec : TSels → Bool) (same : Bool) (x y : String × FNode) : Bool :=
   if x.2.key == y.2.key then
     (match fieldTy s x.1 x.2, fieldTy s y.1 y.2 with
      | some t, some u => sameShape s t u
      | _, _ => true) &&
-    (if overlapB s x.1 y.1 then (x.2.name == y.2.name && x.2.args == y.2.args) && rec (typedSub s x.1 x.2 ++ typedSub s y.1 y.2) else true)
+    (if overlapB s x.1 y.1 then (x.2.name == y.2.name && x.2.args == y.2.args) && rec (if same then typedSub s x.1 x.2 else typedSub s x.1 x.2 ++ typedSub s y.1 y.2) else true)
   else true
 
 /-- merge safety of a scope, `sf` = fuel for computing scopes -/
@@ -70,7 +70,12 @@ def msB (s : SchemaD) (doc : Doc) (sf : Nat) : Nat → TSels → Bool
   | n + 1, L =>
     match scopeOf doc sf L with
     | none => false
-    | some xs => xs.all fun x => xs.all fun y => pairOk s (msB s doc sf n) x y
+    | some xs =>
+      -- pairs by POSITION: an element paired with itself merges its sub-selection once, not twice
+      (List.range xs.length).all fun i => (List.range xs.length).all fun j =>
+        match xs[i]?, xs[j]? with
+        | some x, some y => pairOk s (msB s doc sf n) (i == j) x y
+        | _, _ => true
 
 def mergeSafeB (s : SchemaD) (doc : Doc) : Bool :=
   let fuel := doc.size + 2
